@@ -28,9 +28,10 @@ PROPS["C15"] = {
                 "tools/extract.py translation of the asm! templates into NB.Gen.AsmProg",
                 "valgrind memcheck as the observer of real memory accesses"],
     "assumptions": COMMON_ASSUME + ["rustc honours the asm! operand constraints; real memory behaviour is observed (valgrind, exact-size heap blocks), not proved"],
-    "level_text": "placeholder",
-    "level_note": "placeholder",
-    "claimed": False,
+    "level": "proof",
+    "level_text": "PARTIAL by nature: proved, for the asm instruction lists regenerated from the source on every run and under my mini x86 semantics, that both inline-asm routines never fault, never store through the borrowed pointer, write only a[0..w*n), return idx=w*n, and compute exactly the adc/sbb chain (asm_add_refines / asm_sub_refines, all sizes, by symbolic execution of one iteration + induction over iterations), and that the callers pass w*(len/d) <= len digits (blk_done_le). Real memory behaviour of the compiled code (operand constraints honoured by rustc, allocator layout, the div instruction, from_utf8_unchecked, the u64-as-u32 view) is OBSERVED, not proved: every request also runs under valgrind memcheck on exact-size heap blocks, borrowed operands are compared with saved copies, text is validated as ASCII within the radix alphabet.",
+    "level_note": "Trusted: Lean kernel + {propext, Classical.choice, Quot.sound}; NB.Model.Asm (my x86 subset semantics); tools/extract.py asm! parser; valgrind. The alphabet theorem for to_str_radix belongs to C06, the div_wide precondition to C03.",
+    "technique": "Lean 4 symbolic execution proof over translator-generated asm instruction lists + valgrind-observed correspondence run",
 }
 
 NOT_CLAIMED = {}
